@@ -67,6 +67,6 @@ Holds(c) == CASE c = "C14_KeysAgree" -> C14_KeysAgree [] c = "C14_KeysAgreeAfter
 TStep == /\ TNext
          /\ LET nb == {c \in Clauses : ~(Holds(c))'} IN
               /\ bad' = bad \cup {<<l, c>> : c \in nb}
-              /\ (nb = {} \/ Cardinality(bad) > 40 \/ PrintT(<<"VERIF_BAD", l, nb>>))
+              /\ (nb = {} \/ Cardinality(bad) > 2000 \/ PrintT(<<"VERIF_BAD", l, nb>>))
 TSpec == TInit /\ [][TStep]_tvars
 =============================================================================
